@@ -119,6 +119,7 @@ pub mod k {
     pub const FORGET_AT: i128 = 86; // us: the server process restarts (fresh Endpoint, same reset key and server config): every connection state is lost
     pub const MIGRATE_SILENT: i128 = 87; // 1: the client is not told about its address change (NAT rebinding): no local_address_changed()
     pub const RETRY2: i128 = 88; // 1: an on-path attacker (a second server endpoint with another token key) answers the client's token-bearing Initial with its own, well-formed Retry, delivered before the real server's reply
+    pub const BUSY_NEAR_US: i128 = 89; // >0: busy-polling driver - whenever a connection's next deadline is at most this far away every connection is driven every microsecond until then (drives that produce nothing leave no records)
     pub const DGRAM_START: i128 = 81; // us: application datagrams are not sent before this instant
     pub const RECONNECT: i128 = 70; // open this many further client connections, one per drained connection (slot reuse)
 }
@@ -329,6 +330,7 @@ pub struct World {
     restart_cfg: Option<Arc<EndpointConfig>>,
     att_ep: Option<Endpoint>,
     retry2_done: bool,
+    quiet: bool,
 }
 
 /// long-header Initial (QUIC v1) whose token is not empty
@@ -506,6 +508,7 @@ impl World {
             restart_cfg: None,
             att_ep: None,
             retry2_done: false,
+            quiet: false,
             p,
         };
         let (cert, key) = load_cert();
@@ -1598,6 +1601,7 @@ impl World {
 
     fn drive_conn(&mut self, epi: usize, chk: usize) {
         self.drain_tp_log();
+        let mark = self.trace.len();
         let gso = self.p.get(k::GSO, 1).max(1) as usize;
         let oidx = self.eps[epi].conns[&chk].conn_index as i128;
         let mut rounds = 0;
@@ -1658,6 +1662,9 @@ impl World {
         if self.eps[epi].conns[&chk].drained {
             let cs = self.eps[epi].conns.remove(&chk).unwrap();
             self.eps[epi].zombies.push(cs);
+        } else if self.quiet && self.trace[mark..].iter().all(|r| r[0] == 8 || r[0] == 6) {
+            // a busy-poll drive in which nothing happened leaves no records
+            self.trace.truncate(mark);
         }
     }
 
@@ -1709,7 +1716,8 @@ impl World {
         let mut end_reason = 0;
         loop {
             self.steps += 1;
-            if self.steps > 200_000 {
+            let busy_near = self.p.get(k::BUSY_NEAR_US, 0).max(0) as u64;
+            if self.steps > if busy_near > 0 { 600_000 } else { 200_000 } {
                 end_reason = 3;
                 break;
             }
@@ -1751,6 +1759,15 @@ impl World {
                 end_reason = 1;
                 break;
             };
+            // busy-polling driver: close to a connection's deadline, poll every microsecond
+            self.quiet = false;
+            if busy_near > 0 && next > self.now + 1 {
+                let near = self.eps.iter().filter(|e| !e.silent).flat_map(|e| e.conns.values()).filter_map(|c| c.wake_at).min();
+                if near.is_some_and(|w| w > self.now && w <= self.now + busy_near) {
+                    next = self.now + 1;
+                    self.quiet = true;
+                }
+            }
             if next > max_time {
                 end_reason = 2;
                 break;
